@@ -250,6 +250,274 @@ def reglue_pairs(ctx, g):
     ctx.floor("reglue call sites with a literal pair list", n_lit, 6)
 
 
+def apply_closure(facts, clo, args, g):
+    """the closure's return-value origin with captures and its own arguments substituted (one bottom-up pass: no name capture)"""
+    cp = closure_parts(clo)
+    if cp is None or cp[0] not in facts.bodies:
+        return None
+    cb = facts.bodies[cp[0]]
+    caps = [norm(c, g) for c in cp[1]]
+
+    def f(n):
+        if n[0] == "field" and n[1][0] == "param" and n[1][1] == 1 and str(n[2]).isdigit() and int(n[2]) < len(caps):
+            return caps[int(n[2])]
+        if n[0] == "param" and n[1] >= 2 and n[1] - 2 < len(args):
+            return args[n[1] - 2]
+        return None
+    return map_term(norm(cb.local_origin(0), g), f)
+
+
+def as_index(t):
+    t = strip(t)
+    if t[0] == "index":
+        return strip(t[1]), t[2]
+    if is_call(t, "Index::index") and len(t[2]) == 2:
+        return strip(t[2][0]), t[2][1]
+    return None
+
+
+class Glue:
+    """symbolic evaluation of the pair lists a cutting primitive hands to reglue: fresh chambers are integers (size = 100), existing
+    chambers are (root, canonical operation word)"""
+
+    def __init__(self, ctx, body, g, env):
+        self.ctx, self.b, self.g, self.env = ctx, body, g, env
+        self.F = ctx.facts
+
+    def num(self, t):
+        return eval_term_env(unov_term(fold_std_ops(t)), self.env)
+
+    def items(self, t):
+        """the integers an iterator term runs over"""
+        t = strip(t)
+        r = range_of(self.b, t, self.g)
+        if r:
+            lo, hi = self.num(r[0]), self.num(r[1])
+            if lo is None or hi is None:
+                raise ValueError("range bounds %s" % show(t, 1)[:60])
+            return list(range(lo, hi + (1 if r[2] else 0)))
+        raise ValueError("iterator %s" % show(t, 1)[:60])
+
+    def pairs(self, t):
+        t = strip(t)
+        if is_call(t, "Iterator::chain"):
+            return self.pairs(t[2][0]) + self.pairs(t[2][1])
+        if is_call(t, "iter::empty"):
+            return []
+        if t[0] == "agg" and t[1] == "array":
+            return [self.pair(p) for p in t[2]]
+        if is_call(t, "Iterator::map"):
+            return [self.pair(apply_closure(self.F, t[2][1], [("int", k)], self.g)) for k in self.items(t[2][0])]
+        if is_call(t, "Fn::call") or is_call(t, "FnMut::call_mut") or is_call(t, "FnOnce::call_once"):
+            a = strip(t[2][1])
+            args = list(a[2]) if a[0] == "agg" else [a]
+            r = apply_closure(self.F, t[2][0], args, self.g)
+            if r is None:
+                raise ValueError("closure %s" % show(t[2][0], 1)[:60])
+            return self.pairs(r)
+        raise ValueError("pair list %s" % show(t, 1)[:80])
+
+    def pair(self, p):
+        p = strip(p) if p is not None else None
+        if p is None or not (p[0] == "agg" and p[1] == "tuple" and len(p[2]) == 2):
+            raise ValueError("pair %s" % (show(p, 1)[:60] if p else p))
+        return self.val(p[2][0]), self.val(p[2][1])
+
+    def val(self, t, depth=0):
+        t = strip(t)
+        if depth > 8:
+            raise ValueError("depth")
+        n = self.num(t)
+        if n is not None:
+            return n
+        ix = as_index(t)
+        if ix:
+            base, k = ix
+            k = self.num(k)
+            if k is None:
+                raise ValueError("index %s" % show(t, 1)[:60])
+            if is_call(base, "Iterator::collect"):
+                src = strip(base[2][0])
+                if is_call(src, "Iterator::map"):
+                    inner = strip(src[2][0])
+                    inner = strip(inner[2][0]) if is_call(inner, "::iter") or (inner[0] == "call" and inner[1].endswith("::iter")) else inner
+                    el = ("index", inner, ("int", k))
+                    return self.val(apply_closure(self.F, src[2][1], [el], self.g), depth + 1)
+                return self.items(src)[k]
+            if is_call(base, "box_assume_init_into_vec_unsafe"):
+                # norm() drops the allocation marker that tells vec! literals apart: accept only a function with a single literal
+                lits = [[self.b.origin(o) for o in s_["rv"]["ops"]] for _, _, s_ in self.b.assigns()
+                        if s_["rv"]["k"] == "aggregate" and s_["rv"].get("agg") == "array" and any(e["k"] == "deref" for e in s_["place"]["p"])]
+                if len(lits) != 1:
+                    raise ValueError("%d vec! literals" % len(lits))
+                return self.val(norm(lits[0][k], self.g), depth + 1)
+            if base[0] == "param":
+                return ((base[2], k), ())
+            raise ValueError("indexed %s" % show(base, 1)[:60])
+        r, w = rooted_word(t)
+        if w:
+            rv = self.val(r, depth + 1)
+            if isinstance(rv, int):
+                raise ValueError("operation on a fresh chamber %s" % show(t, 1)[:60])
+            return (rv[0], canon_word(list(rv[1]) + w))
+        if t[0] in ("param", "local"):
+            return (t, ())
+        raise ValueError("chamber %s" % show(t, 1)[:60])
+
+
+def glue_tables(ctx, b, g, env, fresh):
+    """{op index: [(x, y)]} for the reglue calls of b, evaluated with env; plus the structural checks on them.  -> (tables, problem)"""
+    G = Glue(ctx, b, g, env)
+    tabs = {}
+    grows = [G.num(norm(b.origin(t["args"][1]), g)) for bi, t in b.calls(exact=M + "grow")]
+    if grows != [len(fresh)]:
+        return None, "grow is asked for %s chambers where the gluing uses %d" % (grows, len(fresh))
+    for bi, t in b.calls(exact=M + "reglue"):
+        k = eval_int(norm(b.origin(t["args"][2]), g))
+        if k is None or k in tabs:
+            return None, "reglue index %s not a distinct literal" % k
+        try:
+            tabs[k] = G.pairs(norm(b.origin(t["args"][1]), g))
+        except (ValueError, IndexError, TypeError) as e:
+            return None, "pairs for operation %s cannot be evaluated (%s)" % (k, e)
+    for k, ps in sorted(tabs.items()):
+        comps = [x for p in ps for x in p]
+        if len(set(comps)) != len(comps):
+            return tabs, "a chamber is listed twice in the pairs for operation %d: %s" % (k, sorted([c for c in set(comps) if comps.count(c) > 1], key=str)[:2])
+        fr = sorted(c for c in comps if isinstance(c, int))
+        if fr != fresh:
+            return tabs, "operation %d is not defined on every fresh chamber exactly once (fresh chambers %d..%d, listed %s)" % (k, fresh[0], fresh[-1], fr)
+        for c in comps:
+            if not isinstance(c, int) and (c[0], canon_word(list(c[1]) + [k])) not in comps:
+                return tabs, "existing chamber %s.%s is re-paired under operation %d but its old partner is not" % (c[0], list(c[1]), k)
+    return tabs, None
+
+
+def commutation_walks(tabs, fresh):
+    """for every fresh chamber x and commuting pair (a, b): x.a.b.a.b in the re-glued D-set.  -> (decided, problem)"""
+    new = {}
+    for k, ps in tabs.items():
+        for x, y in ps:
+            new[(k, x)] = y
+            new[(k, y)] = x
+    decided = 0
+    for a, b_ in ((0, 2), (0, 3), (1, 3)):
+        for x in fresh:
+            cur = x
+            for j in (a, b_, a, b_):
+                if (j, cur) in new:
+                    cur = new[(j, cur)]
+                elif isinstance(cur, int):
+                    return decided, "operation %d is undefined at fresh chamber %d" % (j, cur)
+                else:
+                    cur = (cur[0], canon_word(list(cur[1]) + [j]))
+            if isinstance(cur, int):
+                decided += 1
+                if cur != x:
+                    return decided, "operations %d and %d do not commute at fresh chamber #%d (x.%d.%d.%d.%d = #%d): the result is not a D-set of a tiling" % (a, b_, x - fresh[0], a, b_, a, b_, cur - fresh[0])
+    return decided, None
+
+
+def cut_tables(ctx, g):
+    """cut_face and cut_tile insert fresh chambers (8, resp. 2m) and glue them in with four reglue calls.  Evaluated symbolically (size 100;
+    m = 2, 4, 6): every operation is defined exactly once on every fresh chamber, re-paired existing chambers are closed under the old operation,
+    and the operation pairs (0,2), (0,3), (1,3) commute at every fresh chamber wherever the walk x.a.b.a.b stays among chambers the primitive knows"""
+    ctx.clauses.append("cut_face / cut_tile glue every fresh chamber exactly once per operation, consistently with the old gluing, with commuting non-adjacent operations (T4, pair lists evaluated)")
+    b = ctx.body(M + "cut_face")
+    ctx.scan(ctx.facts.with_closures(b.name))
+    size = ("field", ("param", 1, b.debug.get(1, "")), "size")
+    fresh = list(range(101, 109))
+    tabs, bad = glue_tables(ctx, b, g, {size: 100}, fresh)
+    dec = 0
+    if not bad and sorted(tabs) != [0, 1, 2, 3]:
+        bad = "reglue is called for operations %s, not 0..3" % sorted(tabs)
+    if not bad:
+        dec, bad = commutation_walks(tabs, fresh)
+        if not bad and dec < 24:
+            bad = "only %d of 24 commutation walks return to a fresh chamber" % dec
+    ctx.ob("T4-cut-gluing", b.name, "8 fresh chambers", "ok" if not bad else "violation",
+           "operations 0..3 defined once on each fresh chamber, old partners re-paired together, %d commutation walks closed" % dec if not bad else bad)
+    b = ctx.body(M + "cut_tile")
+    ctx.scan(ctx.facts.with_closures(b.name))
+    size = ("field", ("param", 1, b.debug.get(1, "")), "size")
+    mlen = ("call", "std::vec::Vec::<T, A>::len", (("param", 2, b.debug.get(2, "")),))
+    for m in (2, 4, 6):
+        fresh = list(range(101, 101 + 2 * m))
+        tabs, bad = glue_tables(ctx, b, g, {size: 100, mlen: m}, fresh)
+        dec = 0
+        if not bad and sorted(tabs) != [0, 1, 2, 3]:
+            bad = "reglue is called for operations %s, not 0..3" % sorted(tabs)
+        if not bad:
+            dec, bad = commutation_walks(tabs, fresh)
+            if not bad and dec < 4 * m:
+                bad = "only %d of %d commutation walks (0,3), (1,3) return to a fresh chamber" % (dec, 4 * m)
+        ctx.ob("T4-cut-gluing", b.name, "cut of length %d" % m, "ok" if not bad else "violation",
+               "operations 0..3 defined once on each of the %d fresh chambers, old partners re-paired together, %d commutation walks closed" % (2 * m, dec) if not bad else bad)
+
+
+def grow_shape(ctx, g):
+    """grow(ds, m) appends m chambers that are fixed points of every operation (what the gluing tables above assume of the fresh chambers)
+    and leaves the old ones alone: build_set(size + m, dim, |i, d| if d > size { Some(d) } else { ds.op(i, d) })"""
+    b = ctx.body(M + "grow")
+    ctx.scan(ctx.facts.with_closures(b.name))
+    me, m_ = ("param", 1, b.debug.get(1, "")), ("param", 2, b.debug.get(2, ""))
+    size_terms = {("field", me, "size"): 100, ("call", "dsets::DSet::size", (me,)): 100, ("field", me, "dim"): 3, ("call", "dsets::DSet::dim", (me,)): 3}
+    sites = list(b.calls("build_set"))
+    bad = None
+    if len(sites) != 1:
+        raise AnchorMissing("grow: build_set call")
+    bi, t = sites[0]
+    env = dict(size_terms)
+    env[m_] = 7
+    n_ = eval_term_env(unov_term(fold_std_ops(norm(b.origin(t["args"][0]), g))), env)
+    d_ = eval_term_env(unov_term(fold_std_ops(norm(b.origin(t["args"][1]), g))), env)
+    if n_ != 107 or d_ != 3:
+        bad = "grow(ds, 7) on a D-set of size 100 and dimension 3 builds a set of size %s and dimension %s" % (n_, d_)
+    cp = closure_parts(norm(b.origin(t["args"][2]), g))
+    if cp is None or cp[0] not in ctx.facts.bodies:
+        raise AnchorMissing("grow: operation closure")
+    cb = ctx.facts.bodies[cp[0]]
+    caps = [norm(c, g) for c in cp[1]]
+
+    def sub(n):
+        if n[0] == "field" and n[1][0] == "param" and n[1][1] == 1 and str(n[2]).isdigit() and int(n[2]) < len(caps):
+            return caps[int(n[2])]
+        return None
+    rets = {}
+    for bi_, si, s in cb.assigns():
+        if s["place"]["l"] == 0 and not s["place"]["p"]:
+            rets[bi_] = map_term(norm(cb.rv_origin(s["rv"]), g), sub)
+    for bi_, t_ in cb.calls():
+        if t_["dest"]["l"] == 0 and not t_["dest"]["p"]:
+            rets[bi_] = ("call", t_["callee"].get("def", "?"), tuple(map_term(norm(cb.origin(a), g), sub) for a in t_["args"]))
+    i_p, d_p = ("param", 2, cb.debug.get(2, "")), ("param", 3, cb.debug.get(3, ""))
+    paths = paths_to(cb, 0, set(rets), g=g)
+    n_eval = 0
+    for d in (1, 100, 101, 107):
+        env = dict(size_terms)
+        env.update({i_p: 2, d_p: d})
+        hits = []
+        for tgt, atoms in paths:
+            ev = [eval_atom_env((a[0],) + tuple(map_term(x, sub) if isinstance(x, tuple) else x for x in a[1:]), env) for a in atoms if not is_ovf_atom(a)]
+            if any(e is None for e in ev):
+                bad = bad or "a branch condition of grow's operation cannot be evaluated"
+            elif all(ev):
+                hits.append(tgt)
+        if len(hits) != 1:
+            bad = bad or "grow's operation at chamber %d: %d returns possible" % (d, len(hits))
+            continue
+        r = strip(rets[hits[0]])
+        n_eval += 1
+        if d > 100:
+            ok = r[0] == "agg" and r[1].endswith("Option::Some") and eval_term_env(r[2][0], env) == d
+            bad = bad or (None if ok else "appended chamber %d (size 100) is not a fixed point of the operations: %s" % (d, show(r, 1)[:50]))
+        else:
+            ok = r[0] == "call" and r[1].endswith("::op") and [strip(x) for x in r[2][1:]] == [i_p, d_p] and strip(r[2][0]) == me
+            bad = bad or (None if ok else "old chamber %d does not keep ds.op(i, d): %s" % (d, show(r, 1)[:50]))
+    ctx.ob("T4-cut-gluing", b.name, "appended chambers are fixed points", "ok" if not bad and n_eval == 4 else "violation",
+           "size + m chambers; d > size -> Some(d), else ds.op(i, d) (4 chambers evaluated)" if not bad and n_eval == 4 else (bad or "not evaluated"))
+
+
 def in_loop(body, bb):
     return any(bb in blocks for h, blocks in natural_loops(body))
 
@@ -447,5 +715,7 @@ def run(ctx):
            "starts from a clone of the input, keeps every Some(out), returns the carried D-set" if okm else "merge_all does not thread one D-set through its steps (%s)" % why)
     squeeze_guard(ctx, g)
     reglue_pairs(ctx, g)
+    cut_tables(ctx, g)
+    grow_shape(ctx, g)
     for bi, t in mi:
         every_iteration_reaches(ctx, "T3-merge-every-step", ma, bi, "step-loop->op(&ds)", "some step of merge_all's table is skipped")
